@@ -1,6 +1,7 @@
-"""Translator part for C07 / C01 / C03: the hand-written straight-line kernels
+"""Translator part for C07 / C01 / C03 / C09: the hand-written straight-line kernels
   src/classic/crypto_core.rs   crypto_core_hsalsa20, crypto_core_hchacha20 (+ helpers)
   src/siphash24.rs             the SipHash round closure and the shape of siphash24
+  src/argon2.rs                the g closure, the calls of blake2_round_nomsg, the index lists of fill_block
 as Coq data (Gen/Kernels.v) for the interpreters of coq/Impl/Cores.v.
 
 Accepted subset (anything else stops the translator; vcheck reports a broken obligation):
@@ -178,11 +179,59 @@ def gen_siphash(repo):
     out.append("Definition sip_final_xor : Z := %d." % int(mt.group(3), 16))
     return out
 
+def gen_argon2(repo):
+    """the permutation of src/argon2.rs: the g closure (mix statements), the eight g calls of
+    blake2_round_nomsg, the index expressions of the two loops of fill_block, fblamka"""
+    src = strip_comments(open(os.path.join(repo, "src/argon2.rs")).read()).split("#[cfg(test)]")[0]
+    out = []
+    if norm(fn_body(src, "fblamka", "argon2.rs")) != "let m = 0xFFFFFFFFu64; let xy = (x & m) * (y & m); x.wrapping_add(y).wrapping_add(2u64.wrapping_mul(xy))":
+        raise SystemExit("vgen(kernels): fblamka differs from the modelled shape")
+    body = fn_body(src, "blake2_round_nomsg", "argon2.rs")
+    gb, m, end = block_after(body, r"let g = \|block: &mut Block, a, b, c, d\| \{", "blake2_round_nomsg g closure")
+    pos = {"a": 0, "b": 1, "c": 2, "d": 3}
+    ops = []
+    for st in [norm(x) for x in gb.split(";") if x.strip()]:
+        m1 = re.fullmatch(r"block\.v\[([abcd])\] = fblamka\(block\.v\[([abcd])\], block\.v\[([abcd])\]\)", st)
+        m2 = re.fullmatch(r"block\.v\[([abcd])\] = rotr64\(block\.v\[([abcd])\] \^ block\.v\[([abcd])\], (\d+)\)", st)
+        if m1 and m1.group(1) == m1.group(2): ops.append("(0%%nat, %d%%nat, %d%%nat, 0)" % (pos[m1.group(1)], pos[m1.group(3)]))
+        elif m2 and m2.group(1) == m2.group(2): ops.append("(1%%nat, %d%%nat, %d%%nat, %s)" % (pos[m2.group(1)], pos[m2.group(3)], m2.group(4)))
+        else: raise SystemExit("vgen(kernels): unsupported statement in argon2 g: " + st)
+    calls = []
+    for st in [norm(x) for x in body[end:].split(";") if x.strip()]:
+        mm = re.fullmatch(r"g\(block, v(\d+), v(\d+), v(\d+), v(\d+)\)", st)
+        if not mm: raise SystemExit("vgen(kernels): unsupported statement in blake2_round_nomsg: " + st)
+        calls.append(tuple(int(mm.group(k)) for k in (1, 2, 3, 4)))
+    fb = norm(fn_body(src, "fill_block", "argon2.rs"))
+    mf = re.fullmatch(r"let mut block_r = Block::default\(\); let mut block_tmp = Block::default\(\); copy_block\(&mut block_r, ref_block\); xor_block\(&mut block_r, prev_block\); "
+                      r"copy_block\(&mut block_tmp, &block_r\); if with_xor \{ xor_block\(&mut block_tmp, next_block\); \} "
+                      r"for i in 0\.\.(\d+) \{ blake2_round_nomsg\( &mut block_r, ([^)]*)\); \} for i in 0\.\.(\d+) \{ blake2_round_nomsg\( &mut block_r, ([^)]*)\); \} "
+                      r"copy_block\(next_block, &block_tmp\); xor_block\(next_block, &block_r\);", fb)
+    if not mf: raise SystemExit("vgen(kernels): fill_block differs from the modelled shape")
+    def table(count, exprs):
+        rows = []
+        es = [e.strip() for e in exprs.split(",") if e.strip()]
+        if len(es) != 16: raise SystemExit("vgen(kernels): fill_block passes %d indices" % len(es))
+        for i in range(int(count)):
+            row = []
+            for e in es:
+                if not re.fullmatch(r"[0-9i*+ ]+", e): raise SystemExit("vgen(kernels): unsupported index expression " + e)
+                row.append(int(eval(e, {"__builtins__": {}}, {"i": i})))
+            rows.append(row)
+        return rows
+    rows, cols = table(mf.group(1), mf.group(2)), table(mf.group(3), mf.group(4))
+    out.append("(* argon2.rs: g closure statements (kind 0 fblamka / 1 xor-rotate, target, operand, rotation) over positions 0..3 of (a, b, c, d) *)")
+    out.append("Definition argon2_g_ops : list (nat * nat * nat * Z) := [" + "; ".join(ops) + "].")
+    out.append("Definition argon2_g_calls : list (nat * nat * nat * nat) := [" + "; ".join("(%d%%nat, %d%%nat, %d%%nat, %d%%nat)" % c for c in calls) + "].")
+    out.append("Definition argon2_row_indices : list (list nat) := [" + "; ".join(nl(r) for r in rows) + "].")
+    out.append("Definition argon2_col_indices : list (list nat) := [" + "; ".join(nl(r) for r in cols) + "].")
+    return out
+
 def generate(repo):
     out = ["(* GENERATED by bin/vgen (vkernel.py) from src/classic/crypto_core.rs and src/siphash24.rs -- do not edit *)",
            "From Coq Require Import ZArith List.\nFrom Dryoc Require Import Impl.KernelIR.\nImport ListNotations KernelIR.\nOpen Scope Z_scope.\n"]
     out += gen_cores(repo)
     out += gen_siphash(repo)
+    out += gen_argon2(repo)
     return "\n".join(out) + "\n"
 
 if __name__ == "__main__":
